@@ -47,9 +47,15 @@ class Sem:
     """Semantics switch.  The default is the property; the others are *wrong* semantics
     used only to name the mechanism of an observed mismatch."""
 
-    def __init__(self, select: str = "most", sup: str = "next") -> None:
+    def __init__(self, select: str = "most", sup: str = "next", standalone: str = "own") -> None:
         self.select = select  # most | least
         self.sup = sup  # next | base | none
+        # An `include`d template that has blocks but no `extends`, rendered while a chain
+        # of depth >= 2 is being resolved: "own" = it is a chain of one template;
+        # "participate" = its block occurrences whose name the including chain defines
+        # are resolved by the including chain.  The property statement does not pin
+        # this (it speaks of templates linked by extends); both are accepted.
+        self.standalone = standalone
 
 
 class Outcome:
@@ -182,13 +188,24 @@ class Ref:
         return e
 
     # -- rendering -----------------------------------------------------------
-    def render_entry(self, entry: str, scope: list[dict], out: list[str]) -> None:
+    def render_entry(self, entry: str, scope: list[dict], out: list[str],
+                     ambient: _Entry | None = None) -> None:
         self.o.stats["entries"] += 1
         e = self._resolve(entry)
         root = e.chain[-1]
+        own = e
+        if (ambient is not None and len(e.chain) == 1 and len(ambient.chain) > 1
+                and self.sem.standalone == "participate"):
+            e = _Entry()
+            e.defs = {**own.defs, **ambient.defs}
+            e.reached = ambient.reached
+            e.active = ambient.active
+            e.chain = ambient.chain
         self._items(self.prog[root], e, None, root, scope, out)
         sel = 0 if self.sem.select == "most" else -1
-        for name, lst in e.defs.items():
+        for name, lst in own.defs.items():
+            if e is not own and name in ambient.defs:  # type: ignore[union-attr]
+                continue
             if lst[sel][2] and name not in e.reached:
                 # required, but nothing that is rendered ever asks for this name
                 self.o.dont_care = True
@@ -240,7 +257,7 @@ class Ref:
             elif k == "as":
                 scope[1][it[1]] = it[2]
             elif k == "inc":
-                self._include(it, scope, out)
+                self._include(it, e, scope, out)
             elif k == "x":
                 pass
             else:  # pragma: no cover
@@ -295,13 +312,13 @@ class Ref:
         tname, body, _req = lst[nxt]
         self._enter(body, e, (name, nxt), tname, scope, out)
 
-    def _include(self, it, scope, out) -> None:  # noqa: ANN001
+    def _include(self, it, e, scope, out) -> None:  # noqa: ANN001
         _, kind, target, kwargs = it
         frame = {k: self._lookup(scope, v) for k, v in kwargs.items()}
         if kind == "include":
             scope.append(frame)
             try:
-                self.render_entry(target, scope, out)
+                self.render_entry(target, scope, out, ambient=e)
             finally:
                 scope.pop()
         else:
